@@ -227,6 +227,11 @@ impl<'a, 'tcx> Cx<'a, 'tcx> {
                 if let Some(v) = ct.try_to_value() {
                     if let Some(si) = v.valtree.try_to_scalar_int() {
                         push_scalar_int(si, ty, &mut o);
+                    } else if let Some(bytes) = v.try_to_raw_bytes(tcx) {
+                        match std::str::from_utf8(bytes) {
+                            Ok(s) if is_strish(ty) => o.push(("s", J::Str(s.to_string()))),
+                            _ => o.push(("bytes", J::Arr(bytes.iter().take(4096).map(|b| J::Int(*b as i128)).collect()))),
+                        }
                     }
                 } else {
                     o.push(("tyconst", J::Str(format!("{:?}", ct))));
